@@ -4,7 +4,7 @@
   `hardFork` into its post-state.
 -/
 import DymVerif.Lemmas.CoreCustody2
-namespace DymVerif.Core
+namespace DymVerif.Core.Fork
 
 -- ---------------------------------------------------------------- record lookup
 
@@ -394,4 +394,4 @@ theorem hardForkToLatest_ok_elim {s s' : St} {ra : Nat} (e : hardForkToLatest s 
     · rename_i lh hl
       exact ⟨r, lh, hg, hl, e⟩
 
-end DymVerif.Core
+end DymVerif.Core.Fork
